@@ -4,6 +4,9 @@ import Hpl.Model.Parser
     that have one (`Raw.printable`: what the parser itself can produce). Used by C06 (`Props/C06b`). -/
 namespace Hpl
 
+/-- what the expression grammar reads of a token: kind, text, and - for a word - whether it directly follows a word character -/
+def tokKey (t : Tok) : TokKind × String × Bool := (t.kind, t.text, t.kind == .word && t.afterWord)
+
 def mkTok (k : TokKind) (s : String) : Tok := ⟨k, s, false, false⟩
 def symT (s : String) : Tok := mkTok .sym s
 def wordT (s : String) : Tok := mkTok .word s
